@@ -36,6 +36,8 @@ func runC09(c *Ctx) {
 		return
 	}
 	info := pk.TypesInfo
+	// a failure branch reports the error it is the branch of (never another, known-nil error variable)
+	checkFailureBranchReportsOwnError(r, p, pkg)
 	methods := p.Methods(pkg, "authenticatedMap")
 	// non-vacuity floor on the exported operations (the unexported helpers may be methods, package-level
 	// functions, or inlined)
